@@ -91,12 +91,12 @@ def cscd(rng, std, pk):
     else:
         des.update(ieee_company_id=rng.randint(0, 2 ** 24 - 1), vendor_specific_identifier=rng.randint(0, 2 ** 36 - 1),
                    vendor_specific_identifier_extension=rng.randint(0, 2 ** 64 - 1))
-    params = {"code_set": rng.choice([1, 2, 3]), "association": rng.randrange(3), "designator_type": 3,
+    params = {"code_set": rng.randrange(16), "association": rng.randrange(4), "designator_type": 3,
               "designator_length": 16 if naa == 6 else 8, "designator": des}
     if rng.random() < 0.4:
         # the dictionary comes from a decoded VPD 83h designation descriptor: it also carries that page's own keys
         params.update(piv=1, protocol_identifier=rng.choice([5, 6, 15]))
-    return {"descriptor_type_code": 0xE4, "peripheral_device_type": 0, "lu_id_type": 0,
+    return {"descriptor_type_code": 0xE4, "peripheral_device_type": rng.choice([0, 5, 0x0E]), "lu_id_type": 0,
             "relative_initiator_port_identifier": pick(rng, 65535),
             pk: params,
             "device_type_specific_parameters": {"pad": rng.getrandbits(1), "disk_block_length": pick(rng, 2 ** 24 - 1)}}
@@ -123,7 +123,9 @@ def run(chk, replay=None):
         "SOP TransportIDs are not judged (layout not reconstructed with certainty)",
         "MODE DATA LENGTH of a MODE SELECT list may be 0 (reserved) or the MODE SENSE value",
         "EXTENDED COPY: CSCD descriptors of type E4h with NAA designators and segment types 00h 01h 02h 0Bh 0Ch 0Dh "
-        "(the ones the library implements); LID4 header layout as in SPC-4 r37",
+        "(the ones the library implements); LID4 header layout as in SPC-4 r37; CSCD peripheral device types 00h / 05h / 0Eh "
+        "(block devices both classes accept; the SPC-5 class refuses 04h and 07h, which is not judged), LU ID TYPE 0 (the "
+        "only value the library accepts), CODE SET and ASSOCIATION over their whole field width",
     ]
     if replay is not None:
         chk.only(replay, keys=("clause", "fmt", "path"))
